@@ -385,3 +385,30 @@ fn character_data_outside_root() {
     let ans = deserialize::<s3s::dto::GetBucketLocationOutput>(b"<LocationConstraint>EU</LocationConstraint>junk");
     assert!(matches!(ans, Err(xml::DeError::InvalidContent)));
 }
+
+/// Literal CR LF and CR in character data denote LF (XML 1.0, section 2.11); `&#13;` denotes CR
+#[test]
+fn line_ends_are_normalized() {
+    let key = |doc: &str| {
+        let val = deserialize::<s3s::dto::Tagging>(doc.as_bytes()).unwrap();
+        val.tag_set[0].key.clone().unwrap()
+    };
+    let doc = |key: &str| format!("<Tagging><TagSet><Tag><Key>{key}</Key><Value>v</Value></Tag></TagSet></Tagging>");
+
+    assert_eq!(key(&doc("a\r\nb")), "a\nb");
+    assert_eq!(key(&doc("a\rb\r")), "a\nb\n");
+    assert_eq!(key(&doc("a\r\r\n\nb")), "a\n\n\nb");
+    assert_eq!(key(&doc("a&#13;&#10;b&#13;")), "a\r\nb\r");
+    assert_eq!(key(&doc("a\r&#10;b")), "a\n\nb");
+    assert_eq!(key(&doc("<![CDATA[a\r\nb\r]]>")), "a\nb\n");
+    assert_eq!(key(&doc("a\r<!-- c -->\nb&#13;<![CDATA[\r\n]]>")), "a\n\nb\r\n");
+
+    // what the serializer writes is read back unchanged
+    let val = s3s::dto::Tagging {
+        tag_set: vec![s3s::dto::Tag {
+            key: Some("a\r\nb\rc\nd".to_owned()),
+            value: Some("\r".to_owned()),
+        }],
+    };
+    test_serde(&val);
+}
